@@ -309,6 +309,54 @@ theorem datagram_read_buffer_is_mtu : datagramReadBufferIsMTU = true := rfl
     call returned, no cache entry is held. -/
 theorem deadlines_are_finite : deadlinesAreNowPlusExpiration = true ∧ doEntryLivesAsLongAsTheCall = true := ⟨rfl, rfl⟩
 
+/-- **do_entry_lives_as_long_as_the_call** (repair F35).  The one entry without a time limit: the request `Do` registers
+    when the caller's context has no deadline.  In the code its deadline is the zero time, which the cache reads as "never";
+    the model's `Entry.validUntil` is an `Int`, so "never" is the sentinel `Model.Blockwise.never` = 2^62 ns (≈ 146 years).
+    What is proved: such an entry is stored with exactly that sentinel, it is visible to `Load` at every time up to the
+    sentinel (no sweep and no expiry drops it), and it ends with the call: `Do`'s deferred `Delete` (`doFinish`) empties the
+    slot.  **Horizon:** for `now > never` the model would hide the entry while the code keeps it — the theorems about time
+    (`expiry_finite`) are statements about the model at every `now`, but model and code agree on these entries only up to the
+    sentinel; the driver's clock starts at 0 and a history advances it by seconds to hours (the generators' sleeps, `end` =
+    +1 h), 14 orders of magnitude below it.  `expiry_finite` clauses 1–3 therefore say nothing useful about a `Do` entry
+    without deadline (formally they expire it at 2^62): its end is clause 3 of this theorem, and clause 4 of `expiry_finite`
+    for calls that do have a deadline. -/
+theorem do_entry_lives_as_long_as_the_call :
+    (∀ (cfg : Cfg) (snd : Option Entry) (now : Int) (r m : Msg), r.deadline = none →
+      (doStartS cfg snd now r).2 = some m → (doStartS cfg snd now r).1 = some ⟨r, never⟩) ∧
+    (∀ (r : Msg) (now : Int), now ≤ never → live (some ⟨r, never⟩) now = some ⟨r, never⟩) ∧
+    (∀ (ep : Endpoint) (tok : Nat), (doFinish ep tok).sending tok = none) := by
+  refine ⟨?_, fun r now h => live_fresh ⟨r, never⟩ now h, fun ep tok => by simp [doFinish, Cache.put]⟩
+  intro cfg snd now r m hd hm
+  unfold doStartS at hm ⊢
+  simp only [hd] at hm ⊢
+  split
+  · rename_i h; simp [h] at hm
+  split
+  · rename_i _ h; simp [h] at hm
+  rename_i h1 h2
+  simp only [if_neg h1, if_neg h2] at hm
+  unfold storeIfAbsent at hm ⊢
+  cases hl : live snd now with
+  | some e => simp [hl] at hm
+  | none =>
+    simp only [hl] at hm ⊢
+    simp only [Bool.false_eq_true, if_false] at hm ⊢
+    split
+    · rfl
+    · rename_i hf
+      simp only [hf, if_false, Bool.false_eq_true] at hm
+      split
+      · rename_i hp; simp [hp] at hm
+      · rename_i hp
+        simp only [hp, if_false, Bool.false_eq_true] at hm
+        split
+        · rename_i hlen; simp [hlen] at hm
+        · rename_i hlen
+          simp only [hlen, if_false] at hm
+          split
+          · rename_i e he; simp [he] at hm
+          · rfl
+
 /-- **caches_own_their_messages** — what "an entry's message is the reassembly buffer of its token, and only of it" rests
     on: the model's entries hold values; in the code they hold pooled messages, and a message handed back to the pool while
     an entry (or a running `Handle` call) still refers to it is given out again as the buffer of another token.  No
@@ -478,6 +526,7 @@ open CoapVerif.Props.C04
 #print axioms expiry_finite
 #print axioms guard_held_across_handler
 #print axioms deadlines_are_finite
+#print axioms do_entry_lives_as_long_as_the_call
 #print axioms caches_own_their_messages
 #print axioms layer_per_connection
 #print axioms datagram_read_buffer_is_mtu
